@@ -1,13 +1,42 @@
 """pandas proxy bound to `pd` in symbolically loaded modules: real pandas, plus pass-through versions of the few
-functions that insist on numeric dtypes when a column holds symbolic scalars."""
+entry points that insist on numeric dtypes when the data hold symbolic scalars."""
 import types
+import numpy as _np
 import pandas as _pd
 from . import npx
+
+
+class _DFMeta(type):
+    def __instancecheck__(cls, obj):
+        return isinstance(obj, _pd.DataFrame)
+
+    def __subclasscheck__(cls, sub):
+        return issubclass(sub, _pd.DataFrame)
+
+    def __getattr__(cls, name):
+        return getattr(_pd.DataFrame, name)
+
+    def __call__(cls, data=None, *a, **k):
+        dt = k.get("dtype")
+        if dt is not None and data is not None and npx.has_sym(data):
+            try:
+                is_float = _np.dtype(dt).kind == "f"
+            except TypeError:
+                is_float = False
+            if is_float:
+                k = dict(k)
+                k.pop("dtype")          # symbolic reals stand for float64 already; keep them as objects
+        return _pd.DataFrame(data, *a, **k)
+
+
+class DataFrameShim(metaclass=_DFMeta):
+    pass
 
 
 class PDX(types.ModuleType):
     def __init__(self):
         super().__init__("pandas")
+        self.DataFrame = DataFrameShim
 
     def __getattr__(self, name):
         return getattr(_pd, name)
